@@ -23,9 +23,16 @@ RT = os.path.join(WORK, "rt", "java")
 RT_CLASSES = os.path.join(RT, "classes")     # runtime: what the emitted main code may see
 RT_JUNIT = os.path.join(RT, "junit")         # JUnit stand-in: only the emitted tests see it
 RT_DRV = os.path.join(RT, "drv")             # driver + test runner (ours)
+RT_CDS = os.path.join(RT, "javac.jsa")       # class-data-sharing archive of javac itself (start-up 0.9 s -> 0.5 s)
 
 JVM = ["-Xmx512m", "-Xss1m", "-XX:+UseSerialGC", "-XX:TieredStopAtLevel=1", "-XX:-UsePerfData", "-Xshare:auto"]
-JAVAC = ["javac"] + ["-J" + x for x in JVM if not x.startswith("-Xss")] + ["-proc:none", "-nowarn", "-encoding", "UTF-8"]
+JAVAC_JVM = ["-J" + x for x in JVM if not x.startswith("-Xss")]
+JAVAC_OPTS = ["-proc:none", "-nowarn", "-encoding", "UTF-8"]
+
+
+def javac():
+    cds = ["-J-XX:SharedArchiveFile=" + RT_CDS] if os.path.exists(RT_CDS) else []
+    return ["javac"] + JAVAC_JVM + cds + JAVAC_OPTS
 MAX_RESTARTS = 25
 STRINGY = ("fix", "dyn")
 
@@ -35,7 +42,7 @@ def _sources(root):
 
 
 def _trim(text, n=1500):
-    text = "\n".join(l for l in text.splitlines() if not l.startswith("WARNING conda") and not l.startswith("Note: "))
+    text = "\n".join(l for l in text.splitlines() if not l.startswith("WARNING conda") and not l.startswith("Note: ") and "[cds" not in l)
     return text[-n:]
 
 
@@ -138,17 +145,26 @@ class Java(Lang):
                 srcs = _sources(os.path.join(SRC, sub))
                 if not srcs:
                     raise Infra("java runtime sources missing under %s" % os.path.join(SRC, sub))
-                cmd = JAVAC + ["-d", dst] + (["-cp", os.pathsep.join(cp)] if cp else []) + srcs
+                cmd = ["javac"] + JAVAC_JVM + JAVAC_OPTS + ["-d", dst] + (["-cp", os.pathsep.join(cp)] if cp else []) + srcs
                 r = run(cmd, timeout=600)
                 if r.returncode != 0:
                     raise Infra("java reference runtime does not build (%s):\n%s" % (sub, (r.stdout + r.stderr)[-3000:]))
+            # optional: archive javac's own classes (dynamic CDS); a missing / stale archive is simply not used
+            if os.path.exists(RT_CDS):
+                os.unlink(RT_CDS)
+            tmpd = os.path.join(RT, "cds_tmp")
+            shutil.rmtree(tmpd, ignore_errors=True)
+            os.makedirs(tmpd)
+            run(["javac"] + JAVAC_JVM + ["-J-XX:ArchiveClassesAtExit=" + RT_CDS] + JAVAC_OPTS
+                + ["-d", tmpd, "-cp", os.pathsep.join([RT_CLASSES, RT_JUNIT])] + _sources(os.path.join(SRC, "drv")), timeout=600)
+            shutil.rmtree(tmpd, ignore_errors=True)
             write(stamp, want)
 
     # -- build the emitted main sources, run the driver ---------------------------------------------
     def _compile(self, srcs, dst, cp):
         shutil.rmtree(dst, ignore_errors=True)
         os.makedirs(dst)
-        return run(JAVAC + ["-d", dst, "-cp", os.pathsep.join(cp)] + srcs, timeout=600)
+        return run(javac() + ["-d", dst, "-cp", os.pathsep.join(cp)] + srcs, timeout=600)
 
     def _session(self, outdir, case, scratch):
         self.setup()
@@ -239,7 +255,7 @@ class Java(Lang):
             if r is None or r.returncode != 0:
                 return {"build_ok": False, "ran": 0, "passed": 0, "failed": 0, "log": log[-1500:]}
             for t in tests:
-                r = run(JAVAC + ["-d", classes, "-cp", os.pathsep.join(cp + [classes]), t], timeout=600)
+                r = run(javac() + ["-d", classes, "-cp", os.pathsep.join(cp + [classes]), t], timeout=600)
                 if r.returncode != 0:
                     unbuilt += 1
         res, r = self._run_tests(classes)
